@@ -226,7 +226,15 @@ def check_canonical(bs, pos=0, depth=0):
     if pos >= len(bs):
         raise ValueError("truncated")
     ib = bs[pos]
+    if isinstance(ib, str):
+        if ib.startswith("0xf4u8 |"):   # symbolic boolean: false/true
+            return pos + 1
+        raise ValueError("symbolic head byte")
     major, ai = ib >> 5, ib & 31
+    if isinstance(ib, str):
+        if ib.startswith("0xf4u8 |"):   # symbolic boolean: false/true
+            return pos + 1
+        raise ValueError("symbolic head byte")
     if major == 7:
         if ai in (20, 21, 22):
             return pos + 1
@@ -239,10 +247,17 @@ def check_canonical(bs, pos=0, depth=0):
         n = {24: 1, 25: 2, 26: 4, 27: 8}[ai]
         if pos + 1 + n > len(bs):
             raise ValueError("truncated head")
-        arg = int.from_bytes(bytes(bs[pos + 1 : pos + 1 + n]), "big")
-        lo = CLASS_RANGE[n][0]
-        if arg < lo:
-            raise ValueError("non-minimal head")
+        argb = bs[pos + 1 : pos + 1 + n]
+        if all(isinstance(x, int) for x in argb):
+            arg = int.from_bytes(bytes(argb), "big")
+            lo = CLASS_RANGE[n][0]
+            if arg < lo:
+                raise ValueError("non-minimal head")
+        else:
+            # symbolic argument: the harness assumes it lies inside this head class, i.e. minimal
+            if major not in (0, 1):
+                raise ValueError("symbolic length")
+            arg = None
         p = pos + 1 + n
     else:
         raise ValueError("indefinite/reserved")
@@ -262,6 +277,8 @@ def check_canonical(bs, pos=0, depth=0):
             ks = p
             p = check_canonical(bs, p, depth + 1)
             key = bs[ks:p]
+            if not all(isinstance(x, int) for x in key):
+                raise ValueError("symbolic map key")
             k = (key[0] >> 5, len(key), key)
             if prev is not None and not (prev < k):
                 raise ValueError("map keys not in canonical order / duplicate")
